@@ -16,6 +16,16 @@ claimed = {
    text="Histories over 1-3 devices are executed against the real status package (SetApprove/SetCompare under a TEST_TIME clock) and the real missing-approve binary; after every action the set of listed devices must satisfy the must-list and must-omit clauses of the property computed by an independent reference model. Known root cause F4/F4b (two-slot status memory) is set aside by signature.",
    note="Trusted: the reference model of observations in harness/c13/oracle.go (written from the property text); approve/compare results are dictated by the model device, the do-approve front-end derivation of FAILED/DIFF is covered by C09, not here.",
    ref="DESIGN.md §3 C13"),
+ "C15": dict(
+   level="exploration", technique="property-based testing (rapid) with simulator-owned schedule: banner plans (command index x form x offset x kind x split write) against the real binaries; transcript-order invariants plus metamorphic equality with the banner-free run",
+   text="For generated IOS change scripts the real drc/do-approve runs against sshdev with a plan of asynchronous reload banners (inside the echo at a drawn offset, before the echo with a fresh prompt, after the echo with and without an extra prompt; 0:02:00 and 0:01:00; optionally split into two write() calls). From the ordered transcript: 'reload in N' precedes the first change, 'reload cancel' follows the last, 'write memory' comes after the cancel and only if every change was accepted, no reload is left pending, a 0:01:00 banner is followed by 'do reload in N' before the next change; and exit status, accepted commands and final running/startup configuration equal those of the same run without banners. Known finding F39 (time-out-0 prompt probe drains the buffer) is set aside by signature.",
+   note="Trusted: sshdev writes each response with one write() so the tool sees it atomically, except for the explicit split arm; only the banner forms the device is known to produce are claimed. A time-out of the banner run is re-run once before it counts.",
+   ref="DESIGN.md §3 C15"),
+ "C17": dict(
+   level="exploration", technique="property-based testing (rapid) over end-to-end dialogues with generated secrets and injected faults; byte scan of every produced file and stream for each secret in plain, query-escaped and path-escaped form",
+   text="Unique high-entropy secrets (login password with URL- and regexp-significant characters, PAN-OS API key, NSX session token) are used in real drc/do-approve runs (approve and compare, -L logging on) against the simulators, on success and with one fault at a drawn position (all kinds, concentrated on login and first requests); every file under basedir, the policy log directory and the -L directory plus stdout/stderr must be free of every secret. The SSH simulator does not echo input typed at a password prompt. Known finding F6 (API key in transport error URL, pinned by the suite) is set aside by signature.",
+   note="Trusted: simulators; the credentials file itself is excluded from the scan.",
+   ref="DESIGN.md §3 C17"),
  "C19": dict(
    level="fault_enumeration", technique="property-based testing (rapid) over histories of commits/runs/kills around the unmodified newpolicy.sh plus enumeration of every kill position (DEBUG-trap injection via BASH_ENV)",
    text="Histories of good/bad commits, undisturbed runs, runs killed at the k-th simple command, simultaneous invocations and manual removal of 'current' are executed against the unmodified bin/newpolicy.sh with a local bare repository and stub compiler; after every action the link/number/compile invariants are checked and a final undisturbed run must promote the newest compiling revision. Thorough enumerates every kill position of a run. Known root cause F9/F9b (stale next/) is set aside by signature.",
